@@ -73,62 +73,7 @@ func runC04(p *Prog, r *Report) {
 	}
 
 	if want("C04.3") {
-		r.Begin("C04.3", "E-ORD", "tables: a table file is closed (all blocks written) and synced before it is handed out as a tFile / renamed into place", 6)
-		if fn := resolveFn(p, r, "leveldb", "(*tWriter).finish"); fn != nil {
-			twClose := evCall("(*leveldb/table.Writer).Close")
-			newTF := evCall("leveldb.newTableFile")
-			ordOnSuccess(p, r, fn, "table-closed", nil, twClose, "table.Writer.Close")
-			ordOnSuccess(p, r, fn, "table-synced", syncOn, evSync, "w.w.Sync (NoSync=false)")
-			ordPrecede(p, r, fn, "close-before-sync", nil, twClose, "table.Writer.Close", evSync, "w.w.Sync")
-			ordPrecede(p, r, fn, "sync-before-handout", syncOn, evSync, "w.w.Sync", newTF, "newTableFile")
-			ordNotOnError(p, r, fn, "no-handout-on-close-error", mErrOfCall("(*leveldb/table.Writer).Close"), "table.Writer.Close", twClose, newTF, "newTableFile")
-			ordNotOnError(p, r, fn, "no-handout-on-sync-error", mErrOfPred(evSync), "w.w.Sync", evSync, newTF, "newTableFile")
-		}
-		if fn := resolveFn(p, r, "leveldb", "(*tOps).createFrom"); fn != nil {
-			ordOnSuccess(p, r, fn, "via-finish", nil, evCall("(*leveldb.tWriter).finish"), "tWriter.finish")
-		}
-		if fn := resolveFn(p, r, "leveldb", "(*tableCompactionBuilder).flush"); fn != nil {
-			ordPrecede(p, r, fn, "finish-before-record", nil, evCall("(*leveldb.tWriter).finish"), "tWriter.finish", evCall("(*leveldb.sessionRecord).addTableFile"), "rec.addTableFile")
-			ordNotOnError(p, r, fn, "no-record-on-finish-error", mErrOfCall("(*leveldb.tWriter).finish"), "tWriter.finish", evCall("(*leveldb.tWriter).finish"), evCall("(*leveldb.sessionRecord).addTableFile"), "rec.addTableFile")
-		}
-		if fn := resolveFn(p, r, "leveldb", "(*Transaction).flush"); fn != nil {
-			ordNotOnError(p, r, fn, "no-record-on-create-error", mErrOfCall("(*leveldb.tOps).createFrom"), "tops.createFrom", evCall("(*leveldb.tOps).createFrom"), evCall("(*leveldb.sessionRecord).addTableFile"), "rec.addTableFile")
-		}
-		if fn := resolveFn(p, r, "leveldb", "(*session).flushMemdb"); fn != nil {
-			ordNotOnError(p, r, fn, "no-record-on-create-error", mErrOfCall("(*leveldb.tOps).createFrom"), "tops.createFrom", evCall("(*leveldb.tOps).createFrom"), evCall("(*leveldb.sessionRecord).addTableFile"), "rec.addTableFile")
-		}
-		// Recover's table rebuild
-		if rt := resolveFn(p, r, "leveldb", "recoverTable"); rt != nil {
-			var build, rec *ssa.Function
-			for _, a := range rt.AnonFuncs {
-				if countInstr(a, evCall("leveldb/table.NewWriter")) > 0 {
-					build = a
-				}
-				if countInstr(a, evStorageInvoke("Rename")) > 0 {
-					rec = a
-				}
-			}
-			if build == nil || rec == nil {
-				r.Fail(fnName(rt), "rebuild:unresolved-anchor", "recoverTable has a table-rebuild closure and a per-table closure that renames", "closures not found", p.Pos(rt.Pos()), nil)
-			} else {
-				r.Fn(fnName(build))
-				r.Fn(fnName(rec))
-				twClose := evCall("(*leveldb/table.Writer).Close")
-				ordOnSuccess(p, r, build, "rebuild-closed", nil, twClose, "tw.Close")
-				ordOnSuccess(p, r, build, "rebuild-synced", syncOn, evSync, "writer.Sync (NoSync=false)")
-				ordPrecede(p, r, build, "rebuild-close-before-sync", nil, twClose, "tw.Close", evSync, "writer.Sync")
-				ordPrecede(p, r, rec, "rebuild-before-rename", nil, evCallClosure(build), "buildTable", evStorageInvoke("Rename"), "stor.Rename(tmp, fd)")
-				ordNotOnError(p, r, rec, "no-rename-on-rebuild-error", func(v ssa.Value) bool {
-					e, ok := stripConv(v).(*ssa.Extract)
-					if !ok || !isErrorType(e.Type()) {
-						return false
-					}
-					c, ok := e.Tuple.(*ssa.Call)
-					return ok && closureCallee(&c.Call) == build
-				}, "buildTable", evCallClosure(build), evStorageInvoke("Rename"), "stor.Rename(tmp, fd)")
-			}
-		}
-		r.End()
+		ruleTableDurability(p, r, "C04.3")
 	}
 
 	if want("C04.4") {
@@ -329,6 +274,66 @@ func ruleInstallAfterDurable(p *Prog, r *Report, rule string) {
 		ordPrecede(p, r, fn, "manifest-before-install", nil, manWrite, "newManifest/flushManifest", evCall(fSetVer), "setVersion")
 		ordNotOnError(p, r, fn, "no-install-on-error", mCellNamed("err"), "the manifest write", nil, evCall(fSetVer), "setVersion")
 		ordOnSuccess(p, r, fn, "installed-on-success", nil, evCall(fSetVer), "setVersion")
+	}
+	r.End()
+}
+
+func ruleTableDurability(p *Prog, r *Report, rule string) {
+	syncOn := assumeSyncOn()
+	r.Begin(rule, "E-ORD", "tables: a table file is closed (all blocks written) and synced before it is handed out as a tFile / renamed into place", 6)
+	if fn := resolveFn(p, r, "leveldb", "(*tWriter).finish"); fn != nil {
+		twClose := evCall("(*leveldb/table.Writer).Close")
+		newTF := evCall("leveldb.newTableFile")
+		ordOnSuccess(p, r, fn, "table-closed", nil, twClose, "table.Writer.Close")
+		ordOnSuccess(p, r, fn, "table-synced", syncOn, evSync, "w.w.Sync (NoSync=false)")
+		ordPrecede(p, r, fn, "close-before-sync", nil, twClose, "table.Writer.Close", evSync, "w.w.Sync")
+		ordPrecede(p, r, fn, "sync-before-handout", syncOn, evSync, "w.w.Sync", newTF, "newTableFile")
+		ordNotOnError(p, r, fn, "no-handout-on-close-error", mErrOfCall("(*leveldb/table.Writer).Close"), "table.Writer.Close", twClose, newTF, "newTableFile")
+		ordNotOnError(p, r, fn, "no-handout-on-sync-error", mErrOfPred(evSync), "w.w.Sync", evSync, newTF, "newTableFile")
+	}
+	if fn := resolveFn(p, r, "leveldb", "(*tOps).createFrom"); fn != nil {
+		ordOnSuccess(p, r, fn, "via-finish", nil, evCall("(*leveldb.tWriter).finish"), "tWriter.finish")
+	}
+	if fn := resolveFn(p, r, "leveldb", "(*tableCompactionBuilder).flush"); fn != nil {
+		ordPrecede(p, r, fn, "finish-before-record", nil, evCall("(*leveldb.tWriter).finish"), "tWriter.finish", evCall("(*leveldb.sessionRecord).addTableFile"), "rec.addTableFile")
+		ordNotOnError(p, r, fn, "no-record-on-finish-error", mErrOfCall("(*leveldb.tWriter).finish"), "tWriter.finish", evCall("(*leveldb.tWriter).finish"), evCall("(*leveldb.sessionRecord).addTableFile"), "rec.addTableFile")
+	}
+	if fn := resolveFn(p, r, "leveldb", "(*Transaction).flush"); fn != nil {
+		ordNotOnError(p, r, fn, "no-record-on-create-error", mErrOfCall("(*leveldb.tOps).createFrom"), "tops.createFrom", evCall("(*leveldb.tOps).createFrom"), evCall("(*leveldb.sessionRecord).addTableFile"), "rec.addTableFile")
+	}
+	if fn := resolveFn(p, r, "leveldb", "(*session).flushMemdb"); fn != nil {
+		ordNotOnError(p, r, fn, "no-record-on-create-error", mErrOfCall("(*leveldb.tOps).createFrom"), "tops.createFrom", evCall("(*leveldb.tOps).createFrom"), evCall("(*leveldb.sessionRecord).addTableFile"), "rec.addTableFile")
+	}
+	// Recover's table rebuild
+	if rt := resolveFn(p, r, "leveldb", "recoverTable"); rt != nil {
+		var build, rec *ssa.Function
+		for _, a := range rt.AnonFuncs {
+			if countInstr(a, evCall("leveldb/table.NewWriter")) > 0 {
+				build = a
+			}
+			if countInstr(a, evStorageInvoke("Rename")) > 0 {
+				rec = a
+			}
+		}
+		if build == nil || rec == nil {
+			r.Fail(fnName(rt), "rebuild:unresolved-anchor", "recoverTable has a table-rebuild closure and a per-table closure that renames", "closures not found", p.Pos(rt.Pos()), nil)
+		} else {
+			r.Fn(fnName(build))
+			r.Fn(fnName(rec))
+			twClose := evCall("(*leveldb/table.Writer).Close")
+			ordOnSuccess(p, r, build, "rebuild-closed", nil, twClose, "tw.Close")
+			ordOnSuccess(p, r, build, "rebuild-synced", syncOn, evSync, "writer.Sync (NoSync=false)")
+			ordPrecede(p, r, build, "rebuild-close-before-sync", nil, twClose, "tw.Close", evSync, "writer.Sync")
+			ordPrecede(p, r, rec, "rebuild-before-rename", nil, evCallClosure(build), "buildTable", evStorageInvoke("Rename"), "stor.Rename(tmp, fd)")
+			ordNotOnError(p, r, rec, "no-rename-on-rebuild-error", func(v ssa.Value) bool {
+				e, ok := stripConv(v).(*ssa.Extract)
+				if !ok || !isErrorType(e.Type()) {
+					return false
+				}
+				c, ok := e.Tuple.(*ssa.Call)
+				return ok && closureCallee(&c.Call) == build
+			}, "buildTable", evCallClosure(build), evStorageInvoke("Rename"), "stor.Rename(tmp, fd)")
+		}
 	}
 	r.End()
 }
